@@ -261,8 +261,11 @@ func resBody(name string, kind string, writes []string, subs []subSpec) func() {
 					if !ok {
 						closed[i] = true
 						// (a single-item subscription also ends when its item is removed) a well
-						// behaved caller releases the subscription once its channel is closed
-						cancel()
+						// behaved caller releases the subscription once its channel is closed -
+						// unless the scenario says it forgets to (abandon == -2)
+						if sp.abandon != -2 {
+							cancel()
+						}
 						return
 					}
 					counts[i]++
@@ -308,7 +311,7 @@ func resBody(name string, kind string, writes []string, subs []subSpec) func() {
 		}
 		verifrt.WaitIdle()
 		for i, sp := range subs {
-			if sp.kind == "id" && removed && !closed[i] && sp.abandon < 0 && subAt[i] != 0 && subAt[i] < delAt && !sp.updatesOnly {
+			if sp.kind == "id" && removed && !closed[i] && (sp.abandon == -1 || sp.abandon == -2) && subAt[i] != 0 && subAt[i] < delAt && !sp.updatesOnly {
 				verifrt.Logf("FAIL id-not-closed %s ## item removed and consumer still receiving, but the PullID channel did not close", name)
 			}
 		}
@@ -432,6 +435,8 @@ func main() {
 		res("coll", -1, -1, []string{"upd", "del"}, subSpec{kind: "id", backpressure: bp, abandon: -1})
 		res("coll", -1, -1, []string{"upd"}, subSpec{kind: "id", backpressure: bp, abandon: -1, cancel: true})
 		res("coll", -1, -1, []string{"del", "upd"}, subSpec{kind: "id", backpressure: bp, updatesOnly: true, abandon: -1})
+		// the item is removed, the subscription ends, the caller does not cancel: later writes must not stall
+		res("coll", -1, -1, []string{"del", "updb", "updb"}, subSpec{kind: "id", backpressure: bp, abandon: -2})
 	}
 	for _, bp := range []bool{true, false} {
 		res("value", -2, -1, []string{"set", "set", "set"}, subSpec{kind: "value", backpressure: bp, abandon: -1, cancel: true})
